@@ -66,6 +66,13 @@ theorem preference_rule :
       p.subsystemsExistingPref = subsystemsWithPref p.subsystems (some p.existingPref) := by
   decide +kernel
 
+/-- Every profile whose documentation promises the `ssh_subsystem_name` preference honours it. -/
+theorem documented_preference_honoured :
+    ∀ p ∈ profiles, p.docPref = true →
+      p.subsystemsNewPref = subsystemsWithPref p.subsystems (some newPref) ∧
+      p.subsystemsExistingPref = subsystemsWithPref p.subsystems (some p.existingPref) := by
+  decide +kernel
+
 /-- …and that rule yields, for EVERY preferred name, a duplicate-free list with it first. -/
 theorem preference_first (names : List Str) (pref : Str) (h : names.Nodup) :
     (subsystemsWithPref names (some pref)).Nodup ∧ (subsystemsWithPref names (some pref)).head? = some pref := by
@@ -93,6 +100,7 @@ theorem noninterference {V} (ops : List (Op V)) (reads : List Cell) (s : State V
 
 /-! Non-vacuity -/
 example : ∃ p ∈ profiles, p.name = "nexus".toList ∧ p.subsystemsNewPref.head? = some newPref := by decide +kernel
+example : (profiles.filter (·.docPref)).length = 4 := by decide +kernel
 example : subsystemsWithPref ["netconf".toList, "xmlagent".toList] (some "xmlagent".toList) = ["xmlagent".toList, "netconf".toList] := by decide
 example : ∃ p ∈ profiles, p.name = "junos".toList ∧ resolve p.vendorOps standardOps "commit".toList ≠ standardOps.lookup "commit".toList := by
   decide +kernel
